@@ -71,7 +71,8 @@ def r09_3(run):
             if isinstance(c.func, ast.Attribute) and isinstance(c.func.value, ast.Attribute) and c.func.value.attr == "_ops":
                 clears.append((fi, c))
     for fi, c in clears:
-        ok = fi.qualname == f"{TENSOR}.clear_graph"
+        from .util import owner_closure
+        ok = fi.qualname in owner_closure(run, {f"{TENSOR}.clear_graph"})
         run.ob("R09.3", loc(fi, c), fi.short, f"{norm(c.func)}()", ok, "emptied by clear_graph only" if ok else
                "consumer sets emptied outside clear_graph: a live graph would be reported as cleared")
     run.count("writers of Tensor._ops", n + len(clears))
